@@ -98,6 +98,10 @@ func genGraph(r *driver.Run, n int, prev *model.G) (*model.G, string) {
 	t := r.T
 	g := model.NewG(n)
 	fam := t.Draw(17)
+	if n > 16 {
+		// large graphs: only families on which both the labelling and the brute-force oracle stay cheap
+		fam = []int{2, 4, 5, 9, 10, 11, 8}[t.Draw(7)]
+	}
 	name := ""
 	switch fam {
 	case 0:
@@ -387,18 +391,18 @@ func checkBrute(r *driver.Run, g *model.G, classVec []int, a answer, what string
 	}
 	// closure of the generators must be all of Aut(g)
 	if len(auts) <= 50000 {
-		key := func(p []int) uint64 {
-			k := uint64(0)
-			for _, v := range p {
-				k = k<<4 | uint64(v)
+		key := func(p []int) string {
+			b := make([]byte, len(p))
+			for i, v := range p {
+				b[i] = byte(v)
 			}
-			return k
+			return string(b)
 		}
 		id := make([]int, n)
 		for i := range id {
 			id[i] = i
 		}
-		seen := map[uint64]bool{key(id): true}
+		seen := map[string]bool{key(id): true}
 		queue := [][]int{id}
 		for len(queue) > 0 && len(seen) <= len(auts) {
 			p := queue[0]
@@ -431,6 +435,9 @@ func runOne(r *driver.Run) {
 	if t.Chance(1, 6) {
 		N = t.Range(10, 16) // larger graphs: code paths that depend on cell sizes > 8..12
 		r.Probe("service-capacity-10-to-16")
+	} else if t.Chance(1, 25) {
+		N = t.Range(21, 28) // cells of more than 20 vertices (block size of the hand-written stable sort)
+		r.Probe("service-capacity-21-to-28")
 	}
 	M := N * (N - 1) / 2
 	nreq := t.Range(1, 14)
@@ -563,7 +570,7 @@ func runOne(r *driver.Run) {
 			if len(got.orbits) != n {
 				r.Fail("orbits", "orbit set has the wrong size", "%s: orbits %v", what, got.orbits)
 			}
-			if n <= 16 {
+			if n <= 28 {
 				checkBrute(r, g, classVec, got, what)
 			}
 			r.ObsInts(got.perm)
@@ -598,7 +605,7 @@ func main() {
 		Property: "C02",
 		Engine:   "canon-service",
 		Level:    "exploration",
-		Rule: "a case is one seeded history of up to 14 labelling requests through ONE reused CanonicalStorage/CanonicalOrderedPartition/CanonicalOptions triple of tape-chosen capacity N <= 9 (one history in six: 10 <= N <= 16): graph sizes go up and down within capacity; families: edgeless, complete, cycle, complete bipartite, complete multipartite, unions of cliques and their complements, rook graphs, two copies of a random graph, circulants, planted automorphisms, relabelled copy of the previous graph, random densities; some requests carry vertex classes (an ordered partition, classes ascending) and some are 'interrupted' (CheckViability with tape-drawn ViableBits, which may return early and leave the partition mid-search before the next Reset). " +
+		Rule: "a case is one seeded history of up to 14 labelling requests through ONE reused CanonicalStorage/CanonicalOrderedPartition/CanonicalOptions triple of tape-chosen capacity N <= 9 (one history in six: 10 <= N <= 16; one in 30: 21 <= N <= 28): graph sizes go up and down within capacity; families: edgeless, complete, cycle, complete bipartite, complete multipartite, unions of cliques and their complements, rook graphs, two copies of a random graph, circulants, planted automorphisms, relabelled copy of the previous graph, random densities; some requests carry vertex classes (an ordered partition, classes ascending) and some are 'interrupted' (CheckViability with tape-drawn ViableBits, which may return early and leave the partition mid-search before the next Reset). " +
 			"Each answer must equal the same call on fresh storage and CanonicalIsomorphFull (perm, orbit partition, generator list), perm must be a permutation, and for groups of up to 60000 elements brute force over all (class-preserving) automorphisms must confirm orbits = orbits of Aut(g), every generator in Aut(g), closure of the generators = Aut(g). Non-trivial = at least 3 requests with at least one size change; distinct = distinct fingerprints of the observed answers.",
 		Assumptions: []string{
 			"the caller protocol of the search package is followed: Reset(n, m, classes) before every call, sizes within the capacity the pair was created with, n >= 1",
@@ -612,7 +619,7 @@ func main() {
 			if tier == "thorough" {
 				return driver.Plan{Random: 1500000, WallLimit: 30 * time.Minute}
 			}
-			return driver.Plan{Random: 50000, WallLimit: 5 * time.Minute}
+			return driver.Plan{Random: 40000, WallLimit: 5 * time.Minute}
 		},
 		RunOne: runOne,
 	})
